@@ -115,6 +115,8 @@ where
 
     let parallel =
         graph.number_of_nodes() > SERIAL_TO_PARALLEL_THRESHOLD && rayon::current_num_threads() > 1;
+    #[cfg(feature = "verif_hooks")]
+    let parallel = crate::verif_hooks::parallel_override().unwrap_or(parallel);
     let shortest_paths_vecs = match parallel {
         true => {
             let iterator =
@@ -343,6 +345,8 @@ where
 {
     let parallel =
         graph.number_of_nodes() > SERIAL_TO_PARALLEL_THRESHOLD && rayon::current_num_threads() > 1;
+    #[cfg(feature = "verif_hooks")]
+    let parallel = crate::verif_hooks::parallel_override().unwrap_or(parallel);
 
     if !graph.has_nodes(&sources) {
         return Err(Error {
